@@ -103,6 +103,7 @@ type gen struct {
 	cellParams       map[string]bool
 	retSetsCounted   bool
 	ghostSetArgs     []Val // arguments of the call the ghost assignments being applied are anchored at
+	qdepth           int   // nesting depth of the quantifier being elaborated (bound-variable naming)
 	ghostSetBefore   bool  // applying the `before call` assignments (true) or the `after call` ones (false)
 	pointAssertsApplied int
 	// freshRefs: reference terms known (syntactically) to denote objects allocated during this execution;
